@@ -9,6 +9,7 @@ CONSTANTS
   MaxInv = 2
   MaxExits = 0
   MaxTimers = 0
+  MaxShutdowns = 1
   RaceTimer = FALSE
   ExtSubs <- MCExtSubs
   IntNames = {}
